@@ -236,5 +236,199 @@ Proof.
   intros H b s o1 o2 Hperm Hnd Hl Ht. unfold finalise_with.
   rewrite (fold_finalise_perm H b o1 o2 s Hperm Hnd (conj Hl Ht)). reflexivity.
 Qed.
-Print Assumptions update_trie_perm.
-Print Assumptions finalise_perm.
+
+(* ---- 4. Commit: everything except the code store ---- *)
+(* st_codes is written with bset, which appends: the code store *list* depends
+   on the iteration order, so the statement erases it. *)
+Definition rmap {A B} (g : A -> B) (r : res A) : res B :=
+  match r with Ok a => Ok (g a) | Panic => Panic end.
+Definition erase_codes (s : state) : state := with_codes [] s.
+Definition commit_one_e H b (s : state) (a : N) : res state := rmap erase_codes (commit_one H b s a).
+
+Lemma nmem_ndel k k' l : k <> k' -> nmem k (ndel k' l) = nmem k l.
+Proof.
+  intros Hne. induction l as [|x t IH]; [reflexivity|]. cbn.
+  destruct (k' =? x) eqn:E; cbn; rewrite IH; [|reflexivity].
+  replace (k =? x) with false by lia. reflexivity.
+Qed.
+
+Lemma ndel_ndel_comm k k' l : ndel k (ndel k' l) = ndel k' (ndel k l).
+Proof.
+  induction l as [|x t IH]; [reflexivity|]. cbn.
+  destruct (k' =? x) eqn:E'; destruct (k =? x) eqn:E; cbn; rewrite ?E, ?E', IH; reflexivity.
+Qed.
+
+Lemma commit_one_e_erase H b s a : commit_one_e H b (erase_codes s) a = commit_one_e H b s a.
+Proof.
+  unfold commit_one_e, commit_one, erase_codes, update_state_object, delete_state_object, put_obj,
+    with_trie, with_live, with_codes, with_dirty.
+  destruct s; cbn.
+  destruct (aget a st_live) as [o|]; [|reflexivity].
+  destruct (o_suicided o || (nmem a st_dirty && b && obj_empty H o)); [reflexivity|].
+  destruct (nmem a st_dirty); [|reflexivity].
+  destruct (o_code o); [destruct (o_dirtycode o)|]; cbn;
+    destruct (o_bal o <? 0)%Z; reflexivity.
+Qed.
+
+(* commit_one_e in a flat form: what happens at address a is decided by a
+   four-way classification of the live object and its dirty flag *)
+Inductive ckind : Type := KDel | KPanic | KUpd | KClean.
+
+Definition commit_obj (o : obj) : obj :=
+  obj_update_root
+    (match o_code o with
+     | Some _ => if o_dirtycode o then o_with_dirtycode false o else o
+     | None => o
+     end).
+
+Arguments commit_obj : simpl never.
+
+Definition commit_kind H (b d : bool) (o : obj) : ckind :=
+  if o_suicided o || (d && b && obj_empty H o) then KDel
+  else if d then (if (o_bal (commit_obj o) <? 0)%Z then KPanic else KUpd)
+  else KClean.
+
+Definition set_tld t l d (s : state) : state :=
+  mkState t [] l d (st_refund s) (st_thash s) (st_bhash s) (st_txindex s) (st_logs s)
+          (st_logsize s) (st_preimages s) (st_journal s) (st_revs s) (st_nextrev s).
+
+Definition commit_one_c H b (s : state) (a : N) : res state :=
+  match aget a (st_live s) with
+  | None => Ok (erase_codes s)
+  | Some o =>
+    match commit_kind H b (nmem a (st_dirty s)) o with
+    | KDel => Ok (set_tld (adel a (st_trie s)) (aset a (o_with_deleted true o) (st_live s))
+                          (ndel a (st_dirty s)) s)
+    | KPanic => Panic
+    | KUpd => let o2 := commit_obj o in
+              Ok (set_tld (aset a (mkAcct (o_nonce o2) (o_bal o2) (o_root o2) (o_ch o2)) (st_trie s))
+                          (aset a o2 (st_live s)) (ndel a (st_dirty s)) s)
+    | KClean => Ok (set_tld (st_trie s) (st_live s) (ndel a (st_dirty s)) s)
+    end
+  end.
+
+Lemma commit_one_e_c H b s a : commit_one_e H b s a = commit_one_c H b s a.
+Proof.
+  unfold commit_one_e, commit_one_c, commit_kind, commit_obj, commit_one, erase_codes,
+    update_state_object, delete_state_object, put_obj, set_tld,
+    with_trie, with_live, with_codes, with_dirty.
+  destruct s; cbn.
+  destruct (aget a st_live) as [o|]; [|reflexivity].
+  destruct (o_suicided o || (nmem a st_dirty && b && obj_empty H o)); [reflexivity|].
+  destruct (nmem a st_dirty); [|reflexivity].
+  destruct (o_code o); [destruct (o_dirtycode o)|]; cbn;
+    destruct (o_bal o <? 0)%Z; reflexivity.
+Qed.
+
+Lemma commit_one_c_sorted H b s a s' :
+  sorted_state s -> commit_one_c H b s a = Ok s' -> sorted_state s'.
+Proof.
+  unfold sorted_state, commit_one_c, erase_codes, set_tld, with_codes.
+  destruct s; cbn. intros [Hl Ht].
+  destruct (aget a st_live) as [o|]; cbn; [|intros E; injection E as <-; cbn; tauto].
+  destruct (commit_kind H b (nmem a st_dirty) o); try discriminate;
+    intros E; injection E as <-; cbn; split;
+    first [assumption | apply aset_sorted; assumption | apply adel_sorted; assumption].
+Qed.
+
+Lemma commit_one_c_comm H b s a a' :
+  sorted_state s -> a <> a' ->
+  rbind (commit_one_c H b s a) (fun s' => commit_one_c H b s' a') =
+  rbind (commit_one_c H b s a') (fun s' => commit_one_c H b s' a).
+Proof.
+  unfold sorted_state, commit_one_c, erase_codes, set_tld, with_codes.
+  destruct s; cbn. intros [Hl Ht] Hne. assert (Hne' : a' <> a) by lia.
+  destruct (aget a st_live) as [o|] eqn:Ea; destruct (aget a' st_live) as [o'|] eqn:Ea'; cbn;
+    rewrite ?Ea, ?Ea'; cbn; try reflexivity.
+  - remember (commit_kind H b (nmem a st_dirty) o) as ka eqn:Eka.
+    remember (commit_kind H b (nmem a' st_dirty) o') as ka' eqn:Eka'.
+    destruct ka; destruct ka'; cbn;
+      rewrite ?aget_aset; replace (a' =? a) with false by lia; replace (a =? a') with false by lia;
+      rewrite ?Ea, ?Ea'; rewrite ?nmem_ndel by assumption; rewrite <- ?Eka, <- ?Eka'; cbn;
+      try reflexivity.
+    all: apply f_equal; unfold set_tld; cbn; f_equal;
+      first [ apply ndel_ndel_comm
+            | apply adel_adel_comm; assumption
+            | apply aset_aset_comm; assumption
+            | apply aset_adel_comm; assumption
+            | symmetry; apply aset_adel_comm; assumption ].
+  - destruct (commit_kind H b (nmem a st_dirty) o); cbn;
+      rewrite ?aget_aset; replace (a' =? a) with false by lia; rewrite ?Ea'; reflexivity.
+  - destruct (commit_kind H b (nmem a' st_dirty) o'); cbn;
+      rewrite ?aget_aset; replace (a =? a') with false by lia; rewrite ?Ea; reflexivity.
+Qed.
+
+Lemma fold_commit_erase H b l : forall s,
+  rmap erase_codes (fold_res (commit_one H b) l s) =
+  fold_res (commit_one_c H b) l (erase_codes s).
+Proof.
+  induction l as [|x t IH]; intros s; [reflexivity|].
+  cbn [fold_res]. rewrite <- commit_one_e_c, commit_one_e_erase. unfold commit_one_e.
+  destruct (commit_one H b s x) as [s1|]; cbn; [apply IH|reflexivity].
+Qed.
+
+Lemma fold_commit_perm H b o1 o2 s :
+  Permutation o1 o2 -> NoDup o1 -> sorted_state s ->
+  rmap erase_codes (fold_res (commit_one H b) o1 s) =
+  rmap erase_codes (fold_res (commit_one H b) o2 s).
+Proof.
+  intros Hperm Hnd Hs. rewrite !fold_commit_erase.
+  apply (fold_res_perm (commit_one_c H b) sorted_state); try assumption.
+  - intros a x a' Pa E. eapply commit_one_c_sorted; eassumption.
+  - intros a x y Pa Hne. apply commit_one_c_comm; assumption.
+Qed.
+
+(* Commit: the returned root and every component of the returned state other
+   than st_codes are independent of the iteration order. *)
+Theorem commit_perm : forall (H : bytes -> bytes) (b : bool) (s : state) (o1 o2 : list N),
+  Permutation o1 o2 -> NoDup o1 -> sorted (st_live s) -> sorted (st_trie s) ->
+  rmap (fun p => (erase_codes (fst p), snd p)) (commit_with H o1 b s) =
+  rmap (fun p => (erase_codes (fst p), snd p)) (commit_with H o2 b s).
+Proof.
+  intros H b s o1 o2 Hperm Hnd Hl Ht. unfold commit_with.
+  pose proof (fold_commit_perm H b o1 o2 s Hperm Hnd (conj Hl Ht)) as E.
+  destruct (fold_res (commit_one H b) o1 s) as [s1|];
+    destruct (fold_res (commit_one H b) o2 s) as [s2|]; cbn in E; try discriminate E;
+    [|reflexivity].
+  destruct s1, s2. unfold erase_codes, with_codes in E. cbn in E.
+  injection E; intros; subst. reflexivity.
+Qed.
+
+Corollary commit_root_perm : forall (H : bytes -> bytes) (b : bool) (s : state) (o1 o2 : list N),
+  Permutation o1 o2 -> NoDup o1 -> sorted (st_live s) -> sorted (st_trie s) ->
+  rmap snd (commit_with H o1 b s) = rmap snd (commit_with H o2 b s).
+Proof.
+  intros H b s o1 o2 Hperm Hnd Hl Ht.
+  pose proof (commit_perm H b s o1 o2 Hperm Hnd Hl Ht) as E.
+  destruct (commit_with H o1 b s) as [[s1 t1]|];
+    destruct (commit_with H o2 b s) as [[s2 t2]|]; cbn in *; try discriminate E;
+    [|reflexivity].
+  injection E; intros; congruence.
+Qed.
+
+(* ---- the writers keep stateObjects in canonical form ---- *)
+Lemma put_obj_sorted s a o : sorted (st_live s) -> sorted (st_live (put_obj s a o)).
+Proof. intros Hs. cbn. apply aset_sorted. exact Hs. Qed.
+
+Lemma mark_and_put_sorted s a o : sorted (st_live s) -> sorted (st_live (mark_and_put s a o)).
+Proof. intros Hs. unfold mark_and_put. destruct (o_armed o); cbn; apply aset_sorted; exact Hs. Qed.
+
+Lemma undo_sorted e s s' : sorted (st_live s) -> undo e s = Ok s' -> sorted (st_live s').
+Proof.
+  intros Hs. destruct e; cbn [undo].
+  - intros E. injection E as <-. cbn. apply adel_sorted. exact Hs.
+  - intros E. injection E as <-. apply put_obj_sorted. exact Hs.
+  - destruct (get_obj s a); intros E; injection E as <-; [apply mark_and_put_sorted|]; exact Hs.
+  - destruct (get_obj s a); [|discriminate]. intros E. injection E as <-. apply mark_and_put_sorted. exact Hs.
+  - destruct (get_obj s a); [|discriminate]. intros E. injection E as <-. apply mark_and_put_sorted. exact Hs.
+  - destruct (get_obj s a); [|discriminate]. intros E. injection E as <-. apply mark_and_put_sorted. exact Hs.
+  - destruct (get_obj s a); [|discriminate]. intros E. injection E as <-. apply mark_and_put_sorted. exact Hs.
+  - intros E. injection E as <-. exact Hs.
+  - destruct (match aget txhash (st_logs s) with Some x => x | None => [] end) as [|x [|y t]];
+      [discriminate| |]; intros E; injection E as <-; exact Hs.
+  - intros E. injection E as <-. exact Hs.
+  - destruct (negb prev && negb (a =? ripemd_addr)).
+    + destruct (get_obj s a); [|discriminate]. intros E. injection E as <-.
+      destruct prevDirty; cbn; apply aset_sorted; exact Hs.
+    + intros E. injection E as <-. exact Hs.
+Qed.
